@@ -166,7 +166,22 @@ def make_data(spec, op, fid, positive=False, mult=None, form=None):
     mult = mult if mult is not None else op["m"]
     payload = op.get("payload", {"kind": "scalar"})
     fb = _base_field(fid, spec["base"], _tail(payload), positive, float(op.get("scale", 1.0)))
-    arr = _repeat(fb, mult).astype(op.get("dtype", "float64"))
+    dt = op.get("dtype", "float64")
+    if dt == "int64":
+        fb = np.round(fb * 64)  # integer-valued field
+    if op.get("nan"):
+        fb = fb.copy()
+        fb.ravel()[0] = np.nan if op["nan"] == "nan" else np.inf
+    arr = _repeat(fb, mult).astype(dt if not op.get("nan") or dt != "int64" else "float64")
+    lay = op.get("layout")
+    if lay == "fortran":
+        arr = np.asfortranarray(arr)
+    elif lay == "strided":
+        big = np.zeros(tuple(2 * n for n in arr.shape), dtype=arr.dtype)
+        big[tuple(slice(None, None, 2) for _ in arr.shape)] = arr
+        arr = big[tuple(slice(None, None, 2) for _ in arr.shape)]  # non-contiguous view
+    elif lay == "readonly":
+        arr.setflags(write=False)
     form = form or op.get("form", "array")
     if form == "array":
         return fb, arr
@@ -231,9 +246,14 @@ def _close(a, b, tol_abs) -> bool:
     b = np.asarray(b, dtype=np.float64)
     if a.shape != b.shape:
         return False
-    if not (np.all(np.isfinite(a)) and np.all(np.isfinite(b))):
-        return bool(np.array_equal(a, b, equal_nan=True))
-    return bool(np.all(np.abs(a - b) <= tol_abs))
+    fa, fb = np.isfinite(a), np.isfinite(b)
+    if not np.array_equal(fa, fb):
+        return False
+    if not np.array_equal(a[~fa], b[~fb], equal_nan=True):  # same inf / nan pattern
+        return False
+    if not np.isfinite(tol_abs):
+        return True
+    return bool(np.all(np.abs(a[fa] - b[fb]) <= tol_abs))
 
 
 class C03Engine(Engine):
@@ -337,7 +357,11 @@ class C03Engine(Engine):
             op["img_dims"] = rng.choice(["unit", "other"])
         if kind == "integrate":
             op.update(field=rng.randint(0, 9999), payload=self._gen_payload(rng),
-                      form=rng.choice(["array", "image"]), dtype=rng.choice(["float64", "float64", "float32"]))
+                      form=rng.choice(["array", "image"]), dtype=rng.choice(["float64", "float64", "float32", "int64"]))
+            if rng.random() < 0.15:
+                op["layout"] = rng.choice(["fortran", "strided", "readonly"])
+            if rng.random() < 0.04:
+                op["nan"] = rng.choice(["nan", "inf"])
         elif kind == "lin":
             op.update(x=rng.randint(0, 9999), y=rng.randint(0, 9999), a=rng.choice([2.0, -0.5, 3.25]),
                       b=rng.choice([1.0, 0.75, -2.0]), payload=self._gen_payload(rng), form="array")
@@ -511,7 +535,8 @@ class C03Engine(Engine):
                     continue
                 if exc is not None:
                     continue
-                scale = float(np.sum(np.abs(ref_integral(spec, aux.get("scale_fb", np.abs(fb)))))) + 1e-300
+                sfb = np.where(np.isfinite(fb), aux.get("scale_fb", np.abs(fb)), 0.0) if "scale_fb" not in aux else aux["scale_fb"]
+                scale = float(np.sum(np.abs(ref_integral(spec, sfb)))) + 1e-300
                 if not _close(val, fval, 1e-12 * scale):
                     out.violate("C03.H", f"{culprit}:{trans}", step, got=val, fresh=fval, history=prev[-4:], op=op,
                                 object=spec)
@@ -604,7 +629,7 @@ class C03Engine(Engine):
         # simplify ops
         for c, prog in case["clients"].items():
             for j, op in enumerate(prog):
-                for fld in ("scale", "img_dims", "ref_keep"):
+                for fld in ("scale", "img_dims", "ref_keep", "layout", "nan"):
                     if fld in op:
                         k = copy.deepcopy(case)
                         k["clients"][c][j].pop(fld)
